@@ -224,3 +224,79 @@ def run_choice(case: dict) -> dict:
         pos += max(got, 0)
     rec["maxreq"] = min(mr, HUGE)
     return rec
+
+
+# ------------------------------------------------------------------ extra tool runs (growth round)
+def tlc_temporal(area: str, module: str, cfg: str, tmp: str, workers: int = 4, timeout: int = 600) -> dict:
+    """Run a liveness config that is EXPECTED to be refuted and report what TLC printed: whether
+    the temporal property was violated and whether the counter-example is a lasso ('Back to
+    state' / 'Stuttering').  (harness.tlc only recognises invariant violations.)"""
+    import os
+    import shutil
+    import subprocess
+    import time
+
+    from . import tlc
+
+    spec_dir = os.path.join(tlc.SPEC_ROOT, area)
+    meta = os.path.join(tmp, f"tlcmeta-{module}-{cfg}-{time.time_ns()}")
+    cmd = tlc._java_cmd("4g", None) + ["-workers", str(workers), "-metadir", meta, "-noGenerateSpecTE", "-deadlock",
+                                       "-config", os.path.join(spec_dir, cfg + ".cfg"),
+                                       os.path.join(spec_dir, module + ".tla")]
+    t0 = time.time()
+    try:
+        p = subprocess.run(cmd, cwd=spec_dir, capture_output=True, text=True, timeout=timeout)
+    except subprocess.TimeoutExpired:
+        raise tlc.MachineryError(f"TLC timeout on {area}/{module} cfg={cfg}")
+    finally:
+        shutil.rmtree(meta, ignore_errors=True)
+    out = p.stdout + p.stderr
+    m = tlc._GEN_RE.findall(out)
+    return {"violated": "Temporal property" in out and "was violated" in out,
+            "lasso": "Back to state" in out or "Stuttering" in out,
+            "no_error": "No error has been found" in out,
+            "distinct": int(m[-1][1]) if m else 0, "generated": int(m[-1][0]) if m else 0,
+            "wall_s": round(time.time() - t0, 1), "tail": out[-1500:]}
+
+
+APALACHE_OBLIGATIONS = [
+    ("IndInv is inductive (IndInit /\\ Next => IndInv')", ["--init=IndInit", "--inv=IndInv", "--length=1"], "NoError"),
+    ("Init => IndInv", ["--init=Init", "--inv=IndInv", "--length=0"], "NoError"),
+    ("IndInv => Safety (upos <= limit, demand <= limit)", ["--init=IndInit", "--inv=Safety", "--length=0"], "NoError"),
+    ("mutant NextOver (request = caller's size) breaks inductiveness", ["--init=IndInit", "--inv=IndInv", "--length=1", "--next=NextOver"], "Error"),
+]
+
+
+def apalache_obligations(tmp: str, timeout: int = 300) -> list[dict]:
+    """Check spec/limitedstream/ApaLS.tla with Apalache (unbounded integers, inductive invariant).
+    Returns one record per obligation: {name, args, outcome, expected, wall_s}; outcome is
+    'NoError' / 'Error' / 'unavailable' / 'timeout' / 'unknown'."""
+    import os
+    import re
+    import shutil
+    import subprocess
+    import time
+
+    from . import tlc
+
+    exe = shutil.which("apalache-mc")
+    res = []
+    work = os.path.join(tmp, "apalache")
+    os.makedirs(work, exist_ok=True)
+    shutil.copy(os.path.join(tlc.SPEC_ROOT, "limitedstream", "ApaLS.tla"), work)
+    for name, args, expected in APALACHE_OBLIGATIONS:
+        rec = {"name": name, "args": " ".join(args), "expected": expected, "outcome": "unavailable", "wall_s": 0.0}
+        if exe:
+            t0 = time.time()
+            try:
+                p = subprocess.run(["timeout", str(timeout), exe, "check", *args, f"--out-dir={work}/out",
+                                    f"--run-dir={work}/run", "ApaLS.tla"], cwd=work, capture_output=True, text=True,
+                                   timeout=timeout + 30)
+                m = re.search(r"The outcome is: (\w+)", p.stdout + p.stderr)
+                rec["outcome"] = m.group(1) if m else ("timeout" if p.returncode == 124 else "unknown")
+            except subprocess.TimeoutExpired:
+                rec["outcome"] = "timeout"
+            rec["wall_s"] = round(time.time() - t0, 1)
+        res.append(rec)
+    shutil.rmtree(work, ignore_errors=True)
+    return res
